@@ -114,6 +114,14 @@ fn leaf_devs() -> Vec<Dev> { vec![
     ("aki-critical", |s, _, _, _| { for e in s.exts.iter_mut() { if e.oid == OID_AKI { e.critical = true; } } }),
     ("aki-removed", |s, _, _, _| remove_ext(s, OID_AKI)), ("aki-wrong", |s, _, _, _| set_ext(s, OID_AKI, ext_aki(&[7; 20]))), ("aki-undecodable", |s, _, _, _| set_ext(s, OID_AKI, raw(OID_AKI, false, vec![0xff]))),
     ("bc-on-leaf", |s, _, _, _| s.exts.push(ext_bc(false, None))),
+    // a REPEATED profiled extension: the conformant instance first, a non-critical offending one later (and the other way round)
+    ("eku-second-bad", |s, _, _, _| s.exts.push(raw(OID_EKU, false, ext_eku(&["1.3.6.1.5.5.7.3.1"]).value))),
+    ("eku-bad-then-good", |s, _, _, _| s.exts.insert(0, raw(OID_EKU, false, ext_eku(&["1.3.6.1.5.5.7.3.1"]).value))),
+    ("ku-second-bad", |s, _, _, _| s.exts.push(raw(OID_KU, false, ext_ku(KeyUsages::DigitalSignature | KeyUsages::KeyCertSign).value))),
+    ("ski-second-bad", |s, _, _, _| s.exts.push(ext_ski(&[9; 20]))),
+    ("crldp-second-bad", |s, _, _, _| s.exts.push(raw(OID_CRLDP, false, CrlDistributionPoints(vec![dp(true, true, true, false)]).to_der().unwrap()))),
+    ("ian-second-bad", |s, _, _, _| s.exts.push(raw(OID_IAN, false, IssuerAltName(vec![GeneralName::DnsName("example.com".to_string().try_into().unwrap())]).to_der().unwrap()))),
+    ("eku-second-undecodable", |s, _, _, _| s.exts.push(raw(OID_EKU, false, vec![0xff]))),
     ("issuer-name-other", |s, _, _, _| { s.issuer = "CN=someone else,C=US".into(); }),
     ("country-other", |s, _, _, _| { s.subject = s.subject.replace("C=US", "C=CA"); }), ("country-missing", |s, _, _, _| { s.subject = s.subject.replace(",C=US", ""); }),
     ("country-twice", |s, _, _, _| { s.subject = format!("{},C=CA", s.subject); }), ("state-on-leaf", |s, _, _, _| { s.subject = format!("{},ST=NY", s.subject); }),
@@ -126,6 +134,10 @@ fn anchor_devs() -> Vec<Dev> { vec![
     ("anchor-bc-removed", |s, _, _, _| remove_ext(s, OID_BC)), ("anchor-bc-not-ca", |s, _, _, _| set_ext(s, OID_BC, ext_bc(false, Some(0)))), ("anchor-bc-pathlen-none", |s, _, _, _| set_ext(s, OID_BC, ext_bc(true, None))), ("anchor-bc-pathlen-1", |s, _, _, _| set_ext(s, OID_BC, ext_bc(true, Some(1)))),
     ("anchor-crldp-removed", |s, _, _, _| remove_ext(s, OID_CRLDP)), ("anchor-ian-removed", |s, _, _, _| remove_ext(s, OID_IAN)),
     ("anchor-unknown-critical", |s, _, _, _| s.exts.push(raw("1.2.3.4.5", true, vec![0x05, 0x00]))), ("anchor-disallowed", |s, _, _, _| s.exts.push(raw("2.5.29.33", false, vec![0x30, 0x00]))),
+    ("anchor-bc-second-bad", |s, _, _, _| s.exts.push(raw(OID_BC, false, ext_bc(false, None).value))),
+    ("anchor-ku-second-bad", |s, _, _, _| s.exts.push(raw(OID_KU, false, ext_ku(KeyUsages::DigitalSignature.into()).value))),
+    ("anchor-country-missing", |s, _, _, _| { s.subject = s.subject.replace(",C=US", ""); s.issuer = s.subject.clone(); }),
+    ("anchor-country-twice", |s, _, _, _| { s.subject = format!("{},C=CA", s.subject); s.issuer = s.subject.clone(); }),
     ("anchor-eku-present-critical", |s, _, _, _| s.exts.push(ext_eku(&[EKU_DS]))),
     ("anchor-country-other", |s, _, _, _| { s.subject = s.subject.replace("C=US", "C=CA"); s.issuer = s.subject.clone(); }),
     ("anchor-state", |s, _, _, _| { s.subject = format!("{},ST=NY", s.subject); s.issuer = s.subject.clone(); }),
@@ -144,6 +156,9 @@ fn run_case(ctx: &mut Ctx, tag: &str, c: &Case) {
         let anchors_t: Vec<String> = c.anchors.iter().map(|(cert, p)| format!("{}@{}", if matches!(p, TrustPurpose::Iaca) { "iaca" } else { "reader" }, abstract_cert(cert, now, &c.keys, &mut it))).collect();
         let op = format!("x509.validate {rs_name} {leaf_t} {}", anchors_t.join(" "));
         ctx.emit.line("corr", &format!("{tag}:{rs_name}"), op, real.clone(), serde_json::json!({"case": c.name, "ruleset": rs_name, "real": real, "msg_hex": format!("{}-{}", c.name, rs_name)}));
+        // Spec(real verdict): "no error" exactly for the chains the declarative Annex B statement accepts
+        ctx.emit.line("spec", &format!("spec:{tag}:{rs_name}"), format!("spec.c12 {rs_name} {} {leaf_t} {}", if real == "ok" { "t" } else { "f" }, anchors_t.join(" ")), "true".into(),
+            serde_json::json!({"case": c.name, "ruleset": rs_name, "real": real, "leaf_der": hex::encode(c.leaf.to_der().unwrap()), "anchors_der": c.anchors.iter().map(|(a, _)| hex::encode(a.to_der().unwrap())).collect::<Vec<_>>(), "msg_hex": format!("spec-{}-{}", c.name, rs_name)}));
     }
 }
 
@@ -189,6 +204,14 @@ pub fn run(ctx: &mut Ctx) {
             let (l, r) = mk(&ls, &rs, &root_key);
             run_case(ctx, &format!("{role}:leaf+anchor-pair"), &Case { name: format!("{n1}+{n2}"), leaf: l, anchors: vec![(r, purpose)], keys: keys.clone() });
         } }
+        // named leaf+anchor pairs that are always run: the attribute missing from / present in BOTH certificates
+        for (n1, n2) in [("country-missing", "anchor-country-missing"), ("state-on-leaf", "anchor-state"), ("country-other", "anchor-country-other"), ("country-twice", "anchor-country-twice"), ("country-missing", "anchor-state")] {
+            let f1 = ldevs.iter().find(|d| d.0 == n1).unwrap().1; let f2 = adevs.iter().find(|d| d.0 == n2).unwrap().1;
+            let mut rs = base_root.clone(); f2(&mut rs, &root_key, &root_key, &mut rng);
+            let mut ls = base_leaf.clone(); ls.issuer = rs.subject.clone(); f1(&mut ls, &leaf_key, &root_key, &mut rng);
+            let (l, r) = mk(&ls, &rs, &root_key);
+            run_case(ctx, &format!("{role}:named-pair"), &Case { name: format!("{n1}+{n2}"), leaf: l, anchors: vec![(r, purpose)], keys: keys.clone() });
+        }
         // registries: purposes mixed, several candidates (first one deviating), none
         let (l, good) = mk(&base_leaf, &base_root, &root_key);
         let wrong_purpose = if matches!(purpose, TrustPurpose::Iaca) { TrustPurpose::ReaderCa } else { TrustPurpose::Iaca };
